@@ -12,7 +12,7 @@ RULE = (
     "invariant (<= 1e-9) after every update and bounded liveness dt == dt_max from step window+2 on; non-trivial = at least 5 "
     "updates on a mesh with >= 10 sites; distinct = scenario digests"
 )
-LIFECYCLES = {"p_prior": 0.15}  # shared object life cycles (scen.add_lifecycles) with their default rates
+LIFECYCLES = {"p_prior": 0.15, "p_metres": 0.08}  # shared object life cycles (scen.add_lifecycles) with their default rates
 BUDGET = {"quick": {"runs": 300, "chunk": 10}, "thorough": {"runs": 40000, "chunk": 20}}
 COMPONENTS = {"real": ["mesh + MeshOperators", "TDGLSolver.update incl. screening kernel", "dt controller"], "stub": ["wall clock"]}
 ASSUMPTIONS = ["'Exactly stationary' is decided as 'to accumulated rounding' (<= 1e-9): Laplacian row sums are ~1e-14 on irregular meshes, a wrong sign or weight moves psi by O(dt) >= 1e-4 per step."]
